@@ -26,7 +26,7 @@ def cls_of(tkey):
     return getattr(M, tkey)
 
 
-def sweep(tkey, cname, unit=None, lo_hi=None):
+def sweep(tkey, cname, unit=None, lo_hi=None, unit_how="attr"):
     t = spec.types()[tkey]
     c = next(x for x in t.controllers if x.name == cname)
     by_name = {x.name: x for x in t.controllers}
@@ -42,7 +42,19 @@ def sweep(tkey, cname, unit=None, lo_hi=None):
 
     if unit is not None:
         u = by_name[c.depends_on]
-        setattr(m, u.attr, u.members[unit])
+        # touch the dependant first so that anything derived from the DEFAULT unit is already in place
+        ctl0 = cls.controllers[c.attr]
+        ctl0.pattern_value(m, getattr(m, c.attr))
+        m.get_raw(c.attr)
+        if unit_how == "attr":
+            setattr(m, u.attr, u.members[unit])
+        elif unit_how == "set_raw":          # the path the file reader uses
+            m.set_raw(u.attr, u.members[unit])
+        else:                                 # through a save/load
+            setattr(m, u.attr, u.members[unit])
+            m = m.clone()
+        key = dict(key, unit_set_by=unit_how)
+        case = dict(case, unit_how=unit_how)
     ctl = cls.controllers[c.attr]
     name = c.attr
     if c.kind == "enum":
@@ -77,6 +89,14 @@ def sweep(tkey, cname, unit=None, lo_hi=None):
     prev_pv = None
     n = 0
     get_raw, set_raw, pattern_value = m.get_raw, m.set_raw, ctl.pattern_value
+    if unit is not None and (lo_hi is None or lo_hi[0] == lo):
+        # BEFORE any attribute assignment to the dependant: the range in effect must already be the one of
+        # the unit just selected, whichever way the unit got its value (raw/stored path only from here)
+        if pattern_value(m, lo) != 0 or pattern_value(m, hi) != 0x8000:
+            bad("pattern-range-stale-after-unit-change", {"unit": unit, "pv_min": pattern_value(m, lo), "pv_max": pattern_value(m, hi)})
+        set_raw(name, hi)
+        if getattr(m, name) != hi or get_raw(name) != hi:
+            bad("raw-roundtrip-after-unit-change", {"unit": unit, "got": getattr(m, name)})
     for v in range(a, b + 1):
         n += 1
         setattr(m, name, v)
@@ -109,14 +129,84 @@ def sweep(tkey, cname, unit=None, lo_hi=None):
     return n, vs
 
 
+def boundary_table(order):
+    """(raw(min), raw(max), pattern(min), pattern(min+1), pattern(max)) of every controller, evaluated in the given
+    controller order in THIS process — run in fresh interpreters by order_independence()."""
+    out = {}
+    items = []
+    for tkey, t in spec.types().items():
+        for c in t.controllers:
+            if c.kind in ("range", "compact", "no_offset"):
+                items.append((tkey, c))
+    if order == "reverse":
+        items.reverse()
+    elif order == "compact-first":
+        items.sort(key=lambda x: x[1].kind != "compact")
+    for tkey, c in items:
+        cls = cls_of(tkey)
+        m = cls()
+        ctl = cls.controllers[c.attr]
+        row = []
+        for v in (c.min, c.max):
+            setattr(m, c.attr, v)
+            row.append(m.get_raw(c.attr))
+        for v in (c.min, min(c.max, c.min + 1), c.max):
+            row.append(ctl.pattern_value(m, v))
+        out[f"{tkey}.{c.name}"] = row
+    return out
+
+
+def order_independence():
+    """The encodings must not depend on which controller was encoded first in the process (a memo keyed too
+    coarsely would make them do so): the boundary table is computed in three fresh interpreters with different
+    controller orders and compared with each other and with the specification."""
+    import json
+    import os
+    import subprocess
+    import sys
+
+    vs = []
+    tables = {}
+    env = dict(os.environ, PYTHONPATH=treeenv.VERIF)
+    for order in ("forward", "reverse", "compact-first"):
+        code = ("import json,sys; from rvmc import treeenv; treeenv.setup(); from checks import c10; "
+                f"print(json.dumps(c10.boundary_table({order!r})))")
+        r = subprocess.run([sys.executable, "-c", code], capture_output=True, text=True, env=env, cwd=treeenv.VERIF)
+        if r.returncode != 0:
+            vs.append(C.viol("order-independence-run-failed", {"order": order}, {"stderr": r.stderr[-300:]}, {"order_independence": True}))
+            return 0, vs
+        tables[order] = json.loads(r.stdout.strip().splitlines()[-1])
+    n = 0
+    for tkey, t in spec.types().items():
+        for c in t.controllers:
+            if c.kind not in ("range", "compact", "no_offset"):
+                continue
+            n += 1
+            name = f"{tkey}.{c.name}"
+            off = c.min if (c.min < 0 and c.kind != "no_offset") else 0
+            span = c.max - c.min
+            want = [c.min - off, c.max - off] + ([0, min(span, 1), span] if c.kind == "compact" else [0, None, 0x8000])
+            for order, tb in tables.items():
+                got = tb[name]
+                bad = [i for i in range(5) if want[i] is not None and got[i] != want[i]]
+                if bad or got != tables["forward"][name]:
+                    vs.append(C.viol("encoding-depends-on-process-order", {"type": tkey, "controller": c.name, "order": order},
+                                     {"expected": want, "observed": got, "forward": tables["forward"][name]},
+                                     {"order_independence": True}))
+    return n * 3, vs
+
+
 def run_case(case):
-    return sweep(case["type"], case["controller"], case.get("unit"))[1]
+    if case.get("order_independence"):
+        return order_independence()[1]
+    return sweep(case["type"], case["controller"], case.get("unit"), None, case.get("unit_how", "attr"))[1]
 
 
 def _task(t):
-    tkey, cname, unit, a, b = t
+    tkey, cname, unit, a, b = t[:5]
+    how = t[5] if len(t) > 5 else "attr"
     r = C.new_result()
-    n, vs = sweep(tkey, cname, unit, (a, b) if a is not None else None)
+    n, vs = sweep(tkey, cname, unit, (a, b) if a is not None else None, how)
     r["evals"] = n
     r["violations"] = vs
     r["sample"] = {"type": tkey, "controller": cname, "unit": unit, "values": [a, b]}
@@ -144,6 +234,10 @@ def run(ctx):
                 while a <= hi:
                     b = min(hi, a + step)
                     tasks.append((tkey, c.name, u, a, b))
+                    if u is not None:
+                        # the unit may also arrive through the reader's path (set_raw) or through a save/load
+                        tasks.append((tkey, c.name, u, a, b, "set_raw"))
+                        tasks.append((tkey, c.name, u, a, b, "clone"))
                     a = b + 1 if b == hi else b
     from rvmc.runner import rotate
 
@@ -151,12 +245,15 @@ def run(ctx):
     for r in ctx.pmap(_task, rotate(tasks, ctx.seed), chunksize=2):
         agg.merge(r)
     ctx.add(agg.violations)
+    n_oi, v_oi = order_independence()
+    ctx.add(v_oi)
+    agg.evals += n_oi
     return {
         "evaluations": agg.evals,
         "distinct_nontrivial": total,
         "rule": "every (controller, unit variant, integer value of the range) / every enum member / both booleans — the "
                 "whole finite domain; distinct_nontrivial = number of distinct (controller, unit, value) ranged pairs",
         "exhaustive": True,
-        "controllers": nctl, "sweeps": agg.counters.get("sweeps", 0),
+        "controllers": nctl, "sweeps": agg.counters.get("sweeps", 0), "order_independence_comparisons": n_oi,
         "samples": agg.samples,
     }
